@@ -22,6 +22,7 @@ GENERATORS = {
     "Interp_gen": "translator.gen_interp",
     "Satisfy_gen": "translator.gen_satisfy",
     "Classify_gen": "translator.gen_classify",
+    "MultiFact_gen": "translator.gen_multifact",
 }
 
 
